@@ -117,6 +117,19 @@ Definition lm (tol : Qc) (m : res (list Qc)) (o : obs (list Qc)) : bool := res_m
                           "rt": rng.choice(["trapezoid", "rectangle"]), "rr": rng.choice(["rectangle", "trapezoid"]),
                           "alpha": rng.choice([1.0, 2.0, 0.5]), "mode": "strategy", "strategy": "closest"})
             made += 1
+        # integer-typed abscissae with reference positions that are not integers (1.6, 5.7, -0.25): which sample is closest / lower /
+        # higher is decided on the numbers, not on numbers cast to the type of x
+        for _ in range(12 if not big else 60):
+            N = rng.randint(8, 14)
+            x0 = rng.randint(-4, 3)
+            x = [float(x0 + i) for i in range(N)]
+            xr = sorted({x[0] + rng.randint(0, 4 * (N - 1)) / 4 + rng.choice([0.0, 0.6, 0.7, 0.3]) for _ in range(rng.randint(2, 4))})
+            xr = [v for v in xr if x[0] <= v <= x[-1] and abs((v * 2) % 2 - 1) > 1e-9]      # (no exact half-way ties)
+            if len(xr) < 2:
+                continue
+            cases.append({"kind": "reference", "x": x, "y": gens.values(rng, N, "int"), "xr": xr, "yr": gens.values(rng, len(xr), "int"),
+                          "rt": rng.choice(["trapezoid", "rectangle"]), "rr": rng.choice(["rectangle", "trapezoid"]), "alpha": rng.choice([1.0, 2.0]),
+                          "mode": "strategy", "strategy": rng.choice(["closest", "higher", "lower"]), "int_x_arr": True})
         # rejection classes
         for _ in range(12):
             c = self.mk_ref(rng, False)
@@ -187,6 +200,8 @@ Definition lm (tol : Qc) (m : res (list Qc)) (o : obs (list Qc)) : bool := res_m
     def run(self, c):
         import traffic_weaver.match as M
         x = np.array(c["x"], dtype=float)
+        if c.get("int_x_arr") and all(float(v).is_integer() for v in c["x"]):
+            x = np.array([int(v) for v in c["x"]], dtype=np.int64)       # integer-typed abscissae (np.arange, sample numbers)
         if c.get("int_y") and all(float(v).is_integer() for v in c["y"]):
             y = np.array([int(v) for v in c["y"]], dtype=np.int64)      # integer-typed values (counts)
         else:
